@@ -6,6 +6,7 @@ import (
 	"math/rand"
 	"os"
 	"path/filepath"
+	"strings"
 	"sync"
 	"time"
 )
@@ -63,6 +64,7 @@ type Runner struct {
 	notes   []string
 	t0      time.Time
 	fold    map[int][2]uint64 // session -> id of the last message before the fold point
+	stuckAt string            // a member stood still behind the others (see stuck)
 	// expectations of the schedule about what it exercised that were not met (e.g. a
 	// late joiner that was expected to need InstallSnapshot replayed the log instead)
 	unmet            []string
@@ -906,6 +908,44 @@ func (r *Runner) recordStates() error {
 	return nil
 }
 
+var errStuck = fmt.Errorf("a member stands still behind the others")
+
+// stuck watches the applied indexes of the live members for d: if any of them moves the network is merely
+// slow (false).  If none moves, every member that is behind hi answers /status as a follower that knows its
+// leader, it is reported as standing still.
+func (r *Runner) stuck(d time.Duration, hi uint64) (string, bool) {
+	c := r.c
+	at := map[int]uint64{}
+	for _, nd := range c.nodes {
+		if nd.live() && nd.isMember() {
+			at[nd.id] = c.lastApplied(nd.id)
+		}
+	}
+	end := time.Now().Add(d)
+	for time.Now().Before(end) {
+		time.Sleep(time.Second)
+		for id, a := range at {
+			if c.lastApplied(id) != a || !c.node(id).live() {
+				return "", false
+			}
+		}
+	}
+	var parts []string
+	for _, nd := range c.nodes {
+		a, ok := at[nd.id]
+		if !ok || a >= hi {
+			continue
+		}
+		st, err := c.status(nd.id, 3*time.Second)
+		if err != nil || st.State != "Follower" || st.Leader == "" {
+			return "", false
+		}
+		parts = append(parts, fmt.Sprintf("node %d is a follower of %s and has stood at applied index %d for %v while the others are at %d",
+			nd.id, st.Leader, a, d, hi))
+	}
+	return strings.Join(parts, "; "), len(parts) > 0
+}
+
 // converge waits until all live members applied the same highest index, stable
 // for a moment.
 func (r *Runner) converge(d time.Duration) (uint64, error) {
@@ -929,6 +969,9 @@ func (r *Runner) converge(d time.Duration) (uint64, error) {
 			}
 			first = false
 		}
+		if r.stuckAt != "" && hi > 0 && lo < hi {
+			return hi, errStuck // established earlier in this run
+		}
 		if lo == hi && hi == last && hi > 0 {
 			stable++
 		} else {
@@ -939,6 +982,14 @@ func (r *Runner) converge(d time.Duration) (uint64, error) {
 			return last, nil
 		}
 		if time.Now().After(end) {
+			if desc, ok := r.stuck(45*time.Second, hi); ok {
+				// not slow: standing still.  The members that lag answer as followers in contact with a
+				// leader, i.e. they serve clients, and nothing has been applied anywhere for a minute.  The
+				// run goes on to the final reads, which record what such a node delivers.
+				c.rec.Log("stuck", "applied", hi, "what", desc)
+				r.stuckAt = desc
+				return hi, errStuck
+			}
 			return 0, inconclusive("nodes did not converge on one applied index (lo=%d hi=%d)", lo, hi)
 		}
 		time.Sleep(100 * time.Millisecond)
@@ -1058,7 +1109,7 @@ func (r *Runner) Quiesce() error {
 		return inconclusive("quiesce: posts not acknowledged within 120s on a healed network")
 	}
 	last, err := r.converge(90 * time.Second)
-	if err != nil {
+	if err != nil && err != errStuck {
 		return err
 	}
 	// give the resuming readers a moment to drain, then stop them
